@@ -385,8 +385,15 @@ func c08Header(p *Prog, r *Report) {
 	r.Check("R08c", "header is chosen from the package's own FFI", f.Pos(), okWire, "translatePackage must pass ctx.Ffi (= getFfi(pkg)) to ffiHeaderFooter")
 }
 
-// resolveOnPath resolves phi nodes along a concrete path.
+// resolveOnPath resolves phi nodes along a concrete path (as seen at the end of the path).
 func resolveOnPath(pt cfgPath, v ssa.Value) ssa.Value {
+	return resolveOnPathAt(pt, v, len(pt.Blocks)-1, false)
+}
+
+// resolveOnPathAt resolves a phi as seen from position `at` of the path: through the last visit of
+// the phi's block at or before that position. With havoc, a phi of a loop header that is entered
+// from outside the loop stays symbolic: the path then stands for an arbitrary iteration.
+func resolveOnPathAt(pt cfgPath, v ssa.Value, at int, havoc bool) ssa.Value {
 	for depth := 0; depth < 10; depth++ {
 		ph, ok := v.(*ssa.Phi)
 		if !ok {
@@ -394,6 +401,9 @@ func resolveOnPath(pt cfgPath, v ssa.Value) ssa.Value {
 		}
 		idx := -1
 		for i, b := range pt.Blocks {
+			if i > at {
+				break
+			}
 			if b == ph.Block() {
 				idx = i
 			}
@@ -402,6 +412,9 @@ func resolveOnPath(pt cfgPath, v ssa.Value) ssa.Value {
 			return v
 		}
 		pred := pt.Blocks[idx-1]
+		if havoc && isLoopHeader(ph.Block()) && !ph.Block().Dominates(pred) {
+			return v
+		}
 		found := false
 		for i, pb := range ph.Block().Preds {
 			if pb == pred {
@@ -413,8 +426,18 @@ func resolveOnPath(pt cfgPath, v ssa.Value) ssa.Value {
 		if !found {
 			return v
 		}
+		at = idx - 1
 	}
 	return v
+}
+
+func isLoopHeader(b *ssa.BasicBlock) bool {
+	for _, pr := range b.Preds {
+		if b.Dominates(pr) {
+			return true
+		}
+	}
+	return false
 }
 
 // resolveLocal follows a load of a local (named result) to the single value stored in it on this function (flow-insensitive; used only for constants/calls).
